@@ -7,6 +7,7 @@ import Mathlib.Tactic.FieldSimp
 import Mathlib.Tactic.Linarith
 import Mathlib.Tactic.LinearCombination
 import Mathlib.Algebra.Order.Field.Basic
+import Mathlib.Data.Int.Cast.Lemmas
 
 namespace Atomman.C04
 open Atomman
@@ -64,6 +65,27 @@ theorem vecMul_eq_zero (V : M3 K) (h : M3.det V ≠ 0) (x : V3 K) (hx : M3.vecMu
   rw [hx] at this
   rw [← this]
   ext <;> simp [M3.vecMul]
+
+/-- Cartesian position of a replica: the original position plus the integer lattice vector
+    `(r0+lo_a) a + (r1+lo_b) b + (r2+lo_c) c`  (for a non-degenerate cell and non-zero multipliers). -/
+theorem replicaPos_eq_aux (b : Box K) (sa sb sc : Size) (p : V3 K) (r0 r1 r2 : Nat)
+    (hdet : M3.det b.vects ≠ 0)
+    (ha : ((sa.mult : Int) : K) ≠ 0) (hb : ((sb.mult : Int) : K) ≠ 0) (hc : ((sc.mult : Int) : K) ≠ 0) :
+    replicaPos b sa sb sc p r0 r1 r2
+      = p + M3.vecMul ⟨(((r0 : Int) + sa.lo : Int) : K), (((r1 : Int) + sb.lo : Int) : K),
+                        (((r2 : Int) + sc.lo : Int) : K)⟩ b.vects := by
+  have hp := relToCart_cartToRel b hdet p
+  unfold replicaPos
+  generalize b.cartToRel p = s at hp ⊢
+  subst hp
+  obtain ⟨⟨⟨v00, v01, v02⟩, ⟨v10, v11, v12⟩, ⟨v20, v21, v22⟩⟩, ⟨o0, o1, o2⟩⟩ := b
+  obtain ⟨s0, s1, s2⟩ := s
+  simp only [superBox, Box.relToCart, M3.vecMul, V3.smul, V3.add_def, Int.cast_add, Int.cast_natCast,
+      Int.cast_one]
+  generalize ((sa.mult : Int) : K) = ma at ha ⊢
+  generalize ((sb.mult : Int) : K) = mb at hb ⊢
+  generalize ((sc.mult : Int) : K) = mc at hc ⊢
+  ext <;> simp only [] <;> field_simp <;> ring
 
 /-! ### indexing into `(List.range n).flatMap f` with blocks of constant length -/
 
